@@ -119,14 +119,32 @@ func NetNodeName(prefix string) gen.Atom {
 	return gen.Atom(fmt.Sprintf("%s%d-%d@localhost", prefix, os.Getpid(), netNodeSeq.Add(1)))
 }
 
+// NodeBudget is the number of networked nodes one test process may start. Every node
+// start registers the node's name in the process-wide EDF atom registry (node/node.go),
+// and the whole registry travels in every handshake; after about 2300 nodes with names of
+// this length the handshake message exceeds 64 KiB and every connection attempt fails
+// with "too long handshake message" (seen as ErrNoRoute). That is a limit of the test
+// process, not of a node, so a check that runs into it stops as an infrastructure failure.
+const NodeBudget = 1900
+
+var nodesStarted atomic.Int64
+
 // StartNetNode starts a networked node registered at the hub. mod may adjust the options.
 func StartNetNode(h *Hub, name gen.Atom, cookie string, mod ...func(*gen.NodeOptions)) (gen.Node, error) {
+	if nodesStarted.Add(1) > NodeBudget {
+		fmt.Println("verif: harness limit - this test process started more than", NodeBudget, "networked nodes (lower checks per shard); inconclusive")
+		os.Exit(3)
+	}
 	var o gen.NodeOptions
 	o.Log.DefaultLogger.Disable = true
 	o.Log.Level = gen.LogLevelDisabled
 	o.Network.Cookie = cookie
 	o.Network.Registrar = h.Registrar()
 	o.Network.Acceptors = []gen.AcceptorOptions{{Host: "localhost", Port: nextPort(), PortRange: 60000}}
+	if os.Getenv("VERIF_NODELOG") != "" {
+		o.Log.DefaultLogger.Disable = false
+		o.Log.Level = gen.LogLevelWarning
+	}
 	for _, m := range mod {
 		m(&o)
 	}
